@@ -237,8 +237,8 @@ func harnessScanInvalid() {
 	for i := range pre {
 		verif.Assume(verif.And(pre[i] >= 1, pre[i] <= 0x7F))
 	}
-	// one representative of each kind of byte >= 0x80: continuation bytes, overlong leads, 2/3/4-byte leads, bytes that never occur
-	bad := []byte{0x80, 0xBF, 0xC0, 0xC3, 0xE2, 0xF0, 0xF5, 0xFF}[verif.Pick("bad", 8)]
+	bad := verif.Byte("bad")
+	verif.Assume(bad >= 0x80)
 	// continuation bytes and F8..FF can never begin a character; a leading byte (C2..F4) followed by an ASCII byte cannot either
 	tail := scanTails[verif.Pick("tail", len(scanTails))]
 	text := append(append(append([]byte{}, pre...), bad), 'x')
